@@ -68,9 +68,8 @@ Example see_poll_parked : sees (q_is (WaitingForPoll 0)) P3 0 1 200 = true. Proo
 (* 4. two futures on one queue awaited by two tasks, two events, a pool runner racing the pollers *)
 Definition P4 := [[OFuture [PAwait 0] UAwait]; [OFuture [PAwait 1; PTouch] UAwait]; [OFire 1; OFire 0]].
 Example sim_two_futures : all_ok P4 1 2 300 = true. Proof. vm_compute. reflexivity. Qed.
-(* 5. stale waker: the job awaits event 0 twice over (await 0 then await 1): the registration with 0 from an earlier poll
-      context stays in the list of 1?  no - staleness arises when the SAME event is awaited from two polls in different contexts:
-      job polled by the poller (DrainWaker), poller drops the future, pool runner re-polls and registers WakeQueue as well *)
+(* 5. stale wakers: the job is first polled by the polling task (DrainWaker registered with event 0), the task drops the future,
+      the pool runner re-polls the job and registers WakeQueue as well; both wakers are called when the event fires *)
 Definition P5 := [[OFuture [PAwait 0; PAwait 1] (UDropAfter 2); ODesync]; [OFire 0; OFire 1]].
 Example sim_stale : all_ok P5 1 2 300 = true. Proof. vm_compute. reflexivity. Qed.
 (* 6. suspend / resume: a sync issued during the suspension, resumed by firing event 0 *)
